@@ -197,9 +197,10 @@ Fixpoint uint_of_digits (s : text) : option Decimal.uint :=
               else None
   end.
 
-(* int(): characters that str->int conversion treats as blank (ASCII range) *)
+(* int(): characters that the str->int conversion of an ASCII string skips at both ends
+   (Py_ISSPACE: \t \n \v \f \r and space; NOT 0x1c-0x1f, which only the non-ASCII path treats as blank) *)
 Definition int_space (c : N) : bool :=
-  ((9 <=? c) && (c <=? 13)) || ((28 <=? c) && (c <=? 32)).
+  ((9 <=? c) && (c <=? 13)) || (c =? 32).
 
 Fixpoint lstrip (p : N -> bool) (s : text) : text :=
   match s with
